@@ -215,10 +215,11 @@ impl<'a> Gen<'a> {
     }
 
     pub fn strategy(&mut self) -> Strategy {
-        match self.rng.below(3) {
+        match self.rng.below(4) {
             0 => Strategy::Random,
             1 => Strategy::Sticky(8 + self.rng.below(7) as u8),
-            _ => Strategy::Pct(1 + self.rng.below(3) as u8),
+            2 => Strategy::Pct(1 + self.rng.below(3) as u8),
+            _ => Strategy::Burst(*self.rng.pick(&[12u8, 32, 64, 160])),
         }
     }
 
@@ -310,6 +311,7 @@ impl<'a> Gen<'a> {
             strategy: self.strategy(),
             read_yield: *self.rng.pick(&[0u32, 0, 64, 512, 1500]),
             schedule: None,
+            stmt_points: self.rng.chance(1, 2),
         }
     }
 
@@ -352,6 +354,7 @@ impl<'a> Gen<'a> {
             strategy: Strategy::Random,
             read_yield: 0,
             schedule: None,
+            stmt_points: false,
         }
     }
 
@@ -378,6 +381,7 @@ impl<'a> Gen<'a> {
             strategy: Strategy::Random,
             read_yield: 0,
             schedule: None,
+            stmt_points: false,
         }
     }
 
@@ -428,6 +432,7 @@ impl<'a> Gen<'a> {
             strategy: self.strategy(),
             read_yield: *self.rng.pick(&[0u32, 0, 512]),
             schedule: None,
+            stmt_points: self.rng.chance(1, 3),
         }
     }
 }
